@@ -2278,6 +2278,9 @@ impl<'de, 'e> de::Deserializer<'de> for YamlDeserializer<'de, 'e> {
                             return Ok(None);
                         }
                         Some(_) => {
+                            // Where the key is *used*: for an aliased key (`*k: v`) this is the
+                            // alias token, not the anchored definition.
+                            let key_use_location = self.ev.reference_location();
                             let mut key_node = capture_node(self.ev)?;
                             if is_merge_key(&key_node) {
                                 // Preserve where the merge value is *referenced* (use-site).
@@ -2299,7 +2302,7 @@ impl<'de, 'e> de::Deserializer<'de> for YamlDeserializer<'de, 'e> {
                             match self.cfg.dup_policy {
                                 DuplicateKeyPolicy::Error => {
                                     if is_duplicate {
-                                        let location = key_node.location();
+                                        let location = key_use_location;
                                         let key = key_node
                                             .fingerprint()
                                             .stringy_scalar_value()
